@@ -33,7 +33,7 @@ type CaseC16 struct {
 	Dup  []int    // indices (mod length) of entries appended once more
 }
 
-var c16Ops = []string{"zoom", "zoom", "merge", "merge", "overlap", "line", "corridor", "neighbours", "quadkeys", "altkeys", "quadkeys-back", "tiles"}
+var c16Ops = []string{"zoom", "zoom", "merge", "merge", "overlap", "line", "corridor", "neighbours", "quadkeys", "altkeys", "bitkeys", "quadkeys-back", "tiles"}
 
 func genPerm(t *rapid.T, label string, n int) []int {
 	idx := make([]int, n)
@@ -70,8 +70,18 @@ func genC16(t *rapid.T) *CaseC16 {
 	case "neighbours":
 		c.C08 = genC08(t)
 		n = len(c.C08.Boxes)
-	case "quadkeys", "altkeys", "quadkeys-back":
+	case "quadkeys", "altkeys", "bitkeys", "quadkeys-back":
 		c.C11 = genC11(t)
+		if c.Op == "bitkeys" {
+			// bit-form vertical IDs over [-4096, 4096) at a small subdivision zoom: runs stay short
+			c.C11.OutV = c.C11.OutV % 9
+			for i := range c.C11.Boxes {
+				if c.C11.Boxes[i].V < 12 {
+					d := 12 - c.C11.Boxes[i].V
+					c.C11.Boxes[i].V, c.C11.Boxes[i].F = 12, c.C11.Boxes[i].F<<uint(d)
+				}
+			}
+		}
 		if c.Op == "altkeys" {
 			for i := range c.C11.Boxes {
 				if c.C11.Boxes[i].V > 25 {
@@ -265,13 +275,17 @@ func c16Run(c *CaseC16, perm, perm2, dup []int) c16Result {
 		extra := append(append(operated.Get6spatialIdsAdjacentToFaces(id), operated.Get8spatialIdsAroundHorizontal(id)...), operated.Get26spatialIdsAroundVoxel(id)...)
 		sort.Strings(extra)
 		r.set = append(r.set, "|"+fmt.Sprint(extra))
-	case "quadkeys", "altkeys":
+	case "quadkeys", "altkeys", "bitkeys":
 		in := boxesExt(arrange(c.C11.Boxes, perm, dup))
 		cp := append([]string(nil), in...)
 		var raw []string
 		var err error
-		if c.Op == "quadkeys" {
-			gs, e := transform.ConvertExtendedSpatialIDsToQuadkeysAndVerticalIDs(in, c.C11.OutH, c.C11.OutV, 0, 0)
+		if c.Op == "quadkeys" || c.Op == "bitkeys" {
+			mx, mn := 0.0, 0.0
+			if c.Op == "bitkeys" {
+				mx, mn = 4096, -4096
+			}
+			gs, e := transform.ConvertExtendedSpatialIDsToQuadkeysAndVerticalIDs(in, c.C11.OutH, c.C11.OutV, mx, mn)
 			err = e
 			for _, g := range gs {
 				for _, p := range g.InnerIDList() {
@@ -390,7 +404,7 @@ func c16Disturb(c *CaseC16, variant int) *CaseC16 {
 		x := *c.C08
 		x.Boxes = mod(x.Boxes)
 		d.C08 = &x
-	case "quadkeys", "altkeys", "quadkeys-back":
+	case "quadkeys", "altkeys", "bitkeys", "quadkeys-back":
 		x := *c.C11
 		x.Boxes = mod(x.Boxes)
 		for i := range x.Boxes {
@@ -506,7 +520,7 @@ func checkC16(c *CaseC16, fl *Fails) {
 func init() {
 	register(PropT[CaseC16]{
 		ID:   "C16",
-		Rule: "rapid: an operation (zoom change, merge, overlap, line, corridor, N-layer + 6/8/26 neighbourhoods, quadkey / altitude-key conversion, quadkey back-conversion, tile conversion; both notations where they exist) with an argument list drawn from that operation's own generator (C03, C04, C05, C06, C14, C08, C11, C13), plus a permutation of every list argument (rapid.Permutation) and 0..3 entries repeated. Oracle: 4 identical calls return equal sets, with calls of the same operation on related arguments (same index numbers at a neighbouring zoom, neighbouring indices) in between: a result must not depend on the call history; the permuted and the duplicated input return the same set (overlap: the same boolean); de-duplicated results contain no element twice; a deep copy of every input slice / object taken before the call equals it afterwards. Line and corridor take points: repeat-determinism and input preservation only. Non-trivial: list length>=3 with a repeated entry and a non-identity permutation; every line/corridor case.",
+		Rule: "rapid: an operation (zoom change, merge, overlap, line, corridor, N-layer + 6/8/26 neighbourhoods, quadkey / altitude-key / bit-form conversion, quadkey back-conversion, tile conversion; both notations where they exist) with an argument list drawn from that operation's own generator (C03, C04, C05, C06, C14, C08, C11, C13), plus a permutation of every list argument (rapid.Permutation) and 0..3 entries repeated. Oracle: 4 identical calls return equal sets, with calls of the same operation on related arguments (same index numbers at a neighbouring zoom, neighbouring indices) in between: a result must not depend on the call history; the permuted and the duplicated input return the same set (overlap: the same boolean); de-duplicated results contain no element twice; a deep copy of every input slice / object taken before the call equals it afterwards. Line and corridor take points: repeat-determinism and input preservation only. Non-trivial: list length>=3 with a repeated entry and a non-identity permutation; every line/corridor case.",
 		Assumptions: []string{
 			"map iteration order is re-randomised by the Go runtime per range statement, so repeated calls inside one process sample different orders; an order dependence with probability p per call is seen by 4 calls with probability 1-p^4-(1-p)^4 per case",
 			"ConvertTileXYZsToSpatialIDs is documented as a plain expansion (not de-duplicated): compared as a set only",
